@@ -78,16 +78,16 @@ def nd_cases(rng, tier):
                         ext = [d * (n - (int(fl[0]) + int(fl[1])) / 2.0) for n, d, fl in zip(shape, dxs, flags)]
                         space = odl.uniform_discr([0.0] * ndim, ext, shape, nodes_on_bdry=flags)
                         assert np.allclose(space.cell_sides, dxs)
-                    if kind == 'pd':
-                        ax = pd_ax
-                        op = odl.PartialDerivative(space, ax, method=m, pad_mode=p, pad_const=c)
-                        opk = '(OpPD %d)' % ax
-                    elif kind == 'grad':
-                        op = odl.Gradient(space, method=m, pad_mode=p, pad_const=c); opk = 'OpGrad'
-                    elif kind == 'div':
-                        op = odl.Divergence(range=space, method=m, pad_mode=p, pad_const=c); opk = 'OpDiv'
-                    else:
-                        op = odl.Laplacian(space, pad_mode=p, pad_const=c); opk = 'OpLap'
+                    meta = {'op': kind, 'shape': shape, 'method': m, 'pad_mode': p, 'pad_const': c,
+                            'dx': dxs, 'axis': pd_ax, 'in_place': False}
+                    try:
+                        op = _nd_op(space, meta)
+                    except Exception as e:
+                        # every axis that is differentiated is long enough for the mode: the code must accept
+                        _CTOR_FAILS.append((dict(meta, flags=None if bdry is None else flags), repr(e)))
+                        continue
+                    ax = pd_ax
+                    opk = {'pd': '(OpPD %d)' % ax, 'grad': 'OpGrad', 'div': 'OpDiv', 'lap': 'OpLap'}[kind]
                     def pack(el, sp):
                         if isinstance(sp, odl.ProductSpace):
                             return [np.asarray(e).ravel().tolist() for e in el]
@@ -114,13 +114,103 @@ def nd_cases(rng, tier):
                             % (opk, C.nats(shape) + '%nat', T.METH[m], T.PMODE[p], C.q(c), C.qs(dxs),
                                C.qss(pack(x, op.domain)), C.qss(pack(out, op.range)), C.b(lin),
                                C.qss(yy), C.qss(adj)))
-                    cs.add(term, {'op': kind, 'shape': shape, 'method': m, 'pad_mode': p, 'pad_const': c,
-                                  'dx': dxs, 'in_place': inplace},
+                    cs.add(term, dict(meta, in_place=inplace),
                            (kind, tuple(shape), m, p, c, tuple(dxs)))
     return cs
 
 
 _COV = {}
+_CTOR_FAILS = []
+
+
+def _nd_op(space, meta):
+    import odl
+    kind, m, p, c = meta['op'], meta['method'], meta['pad_mode'], meta['pad_const']
+    if kind == 'pd':
+        return odl.PartialDerivative(space, meta['axis'], method=m, pad_mode=p, pad_const=c)
+    if kind == 'grad':
+        return odl.Gradient(space, method=m, pad_mode=p, pad_const=c)
+    if kind == 'div':
+        return odl.Divergence(range=space, method=m, pad_mode=p, pad_const=c)
+    return odl.Laplacian(space, pad_mode=p, pad_const=c)
+
+
+def nd_oracle(meta, seed=0):
+    """Independent N-d oracle for one configuration of nd_cases (used by the probes, by search() and by
+    replay scripts): returns (ok, observed, expected, what).  Values are compared with the textbook stencil
+    applied along the axis (base pad modes), in-place results with out-of-place ones, and the returned
+    adjoint with the transposed matrix."""
+    import random
+    import odl
+    rng = random.Random('nd-%r-%d' % (sorted(meta.items(), key=str), seed))
+    shape, dxs = meta['shape'], meta['dx']
+    ndim = len(shape)
+    space = odl.uniform_discr([0.0] * ndim, [n * d for n, d in zip(shape, dxs)], shape)
+    try:
+        op = _nd_op(space, meta)
+    except Exception as e:
+        return False, repr(e), 'an operator', 'constructor refuses shape %s although every differentiated axis is long enough' % shape
+    kind, m, p, c = meta['op'], meta['method'], meta['pad_mode'], meta['pad_const']
+
+    def rand_el(sp):
+        if isinstance(sp, odl.ProductSpace):
+            return sp.element([_arr(rng, shape) for _ in range(len(sp))])
+        return sp.element(_arr(rng, shape))
+    x = rand_el(op.domain)
+    x0 = _flat(x).copy()
+    oop = _flat(op(x))
+    if meta.get('in_place'):
+        got = _flat(op(x, out=rand_el(op.range)))
+        if not np.array_equal(got, oop):
+            return False, got.tolist(), oop.tolist(), 'op(x, out=used buffer) differs from op(x)'
+        if op.is_linear:
+            y = rand_el(op.range)
+            a1, a2 = _flat(op.adjoint(y)), _flat(op.adjoint(y, out=rand_el(op.domain)))
+            if not np.array_equal(a1, a2):
+                return False, a2.tolist(), a1.tolist(), 'op.adjoint(y, out=used buffer) differs from op.adjoint(y)'
+    if not np.array_equal(_flat(x), x0):
+        return False, _flat(x).tolist(), x0.tolist(), 'the input was modified'
+    if p in ('constant', 'symmetric', 'periodic', 'order0', 'order1', 'order2') and kind != 'lap' and \
+            not (p == 'order2' and m != 'central'):
+        def pdref(a, ax):
+            return np.apply_along_axis(lambda r: _ref_fd(r, m, p, c, dxs[ax]), ax, a)
+        if kind == 'pd':
+            want = pdref(np.asarray(x), meta['axis']).ravel()
+        elif kind == 'grad':
+            want = np.concatenate([pdref(np.asarray(x), a).ravel() for a in range(ndim)])
+        else:
+            want = sum(pdref(np.asarray(x[a]), a) for a in range(ndim)).ravel()
+        if not np.array_equal(oop, want):
+            return False, oop.tolist(), want.tolist(), 'value differs from the textbook stencil along the axis'
+    if op.is_linear:
+        M, A = _matrix(op), _matrix(op.adjoint)
+        if not np.array_equal(A, M.T):
+            return False, A.tolist(), M.T.tolist(), 'matrix of the returned adjoint is not the transpose'
+    return True, None, None, ''
+
+
+def _nd_probe(meta, key):
+    ok, obs, exp, what = nd_oracle(meta)
+    rp = ("import sys\nsys.path.insert(0, %r)\nfrom harness.c13 import nd_oracle\n"
+          "ok, observed, expected, what = nd_oracle(%r)\n" % (C.VERIF, meta))
+    return C.Probe(ok, key, '%s on shape %s (%s, %s%s): %s' % (
+        meta['op'], meta['shape'], meta['method'], meta['pad_mode'],
+        ', in place' if meta.get('in_place') else '', what or 'N-d oracle'), rp,
+        None if ok else {'observed': obs, 'expected': exp})
+
+
+def search(rng, broken):
+    """A correspondence case of the N-d family failed: replay its configuration (and neighbours) against
+    the independent oracle to obtain a concrete input on which the property itself fails."""
+    metas = [d for k, w, d in broken if k == 'correspondence' and isinstance(d, dict) and 'op' in d and 'shape' in d]
+    for meta in metas[:40]:
+        meta = dict(meta)
+        meta.setdefault('axis', 0)
+        for ip in (meta.get('in_place', False), True):
+            pr = _nd_probe(dict(meta, in_place=ip), 'nd-%s-%s-%s' % (meta['op'], meta['method'], meta['pad_mode']))
+            if not pr.ok:
+                return pr
+    return None
 
 
 def extra_coverage():
@@ -133,6 +223,7 @@ def correspondence(rng, tier):
     with C.LineTrace([D.finite_diff, D.PartialDerivative._call, D.Gradient._call, D.Divergence._call,
                       D.Laplacian._call, D.Gradient.adjoint.fget, D.Divergence.adjoint.fget,
                       D.PartialDerivative.adjoint.fget, D.Laplacian.adjoint.fget]) as lt:
+        del _CTOR_FAILS[:]
         res = _correspondence(rng, tier)
     _COV.clear()
     _COV.update(lt.report())
@@ -293,6 +384,29 @@ def probes(rng, tier):
                 ok = False
             out.append(C.Probe(ok, 'nodes-on-bdry-step-%s' % m,
                                'PartialDerivative/Divergence use cell_sides and Divergence = -Gradient^T with nodes_on_bdry=%r, shape %s' % (flags, shape), rp))
+    # configurations of the correspondence whose constructor raised
+    for meta, err in _CTOR_FAILS[:10]:
+        fl = meta.pop('flags', None)
+        out.append(_nd_probe(meta, 'constructor-accepts-legal-shape'))
+        out[-1].ok = False
+        out[-1].what += ' [raised %s; nodes_on_bdry=%r]' % (err, fl)
+    # in-place evaluation into used buffers, short non-differentiated axes: the N-d oracle
+    nper = 1 if tier == 'quick' else 3
+    for kind in ('pd', 'grad', 'div', 'lap'):
+        for m in (METHS if kind != 'lap' else ['forward']):
+            for p in (PMODES if kind != 'lap' else LAP_MODES):
+                for _ in range(nper):
+                    ndim = rng.choice([2, 2, 3])
+                    lo = 3 if p.startswith('order2') else 2
+                    shape = [rng.randint(lo, 4) for _ in range(ndim)]
+                    ax = rng.randrange(ndim)
+                    if kind == 'pd':
+                        shape = [n_ if i == ax else rng.randint(1, 3) for i, n_ in enumerate(shape)]
+                    meta = {'op': kind, 'shape': shape, 'method': m, 'pad_mode': p,
+                            'pad_const': float(rng.choice([0, 1, -2])) if p == 'constant' else 0.0,
+                            'dx': [rng.choice([1.0, 0.5, 2.0]) for _ in range(ndim)], 'axis': ax,
+                            'in_place': True}
+                    out.append(_nd_probe(meta, 'nd-%s-%s-%s' % (kind, m, p)))
     # the set of pad modes Laplacian accepts is the set the self-adjointness theorem covers (lap_mode)
     sp2 = odl.uniform_discr([0, 0], [3, 3], [3, 3])
     for p in PMODES:
